@@ -75,7 +75,7 @@ def main():
         args.json,
     )
 
-    if len(list(filter(None, [file, cmd, mod, eval_]))) != 1:
+    if len([x for x in [file, cmd, mod, eval_] if x is not None]) != 1:
         parser.error("Must specify exactly one of file, cmd, eval, or mod")
 
     console = Console()
